@@ -143,3 +143,75 @@ func (w *World) LockedClients() []string {
 	})
 	return out
 }
+
+// ---- third-party service endpoint ----
+
+// Svc is the service websocket endpoint, wired as Service.Start wires it.
+type Svc struct {
+	w      *World
+	srv    *httptest.Server
+	mu     sync.Mutex
+	Panics []string
+}
+
+func (w *World) StartSvc() *Svc {
+	o := &Svc{w: w}
+	mux := http.NewServeMux()
+	mux.HandleFunc("/svc", func(rw http.ResponseWriter, r *http.Request) {
+		up := websocket.Upgrader{}
+		ws, err := up.Upgrade(rw, r, nil)
+		if err != nil {
+			return
+		}
+		go func() {
+			defer func() {
+				if p := recover(); p != nil {
+					o.mu.Lock()
+					o.Panics = append(o.Panics, fmt.Sprintf("%v\n%s", p, debug.Stack()))
+					o.mu.Unlock()
+				}
+			}()
+			w.TS.Service.VerifHandleConnection(ws)
+		}()
+	})
+	o.srv = httptest.NewServer(mux)
+	return o
+}
+
+func (o *Svc) Close() { o.srv.CloseClientConnections(); o.srv.Close() }
+func (o *Svc) TakePanics() []string {
+	o.mu.Lock()
+	defer o.mu.Unlock()
+	p := o.Panics
+	o.Panics = nil
+	return p
+}
+func (o *Svc) Dial() (*OpClient, error) {
+	url := "ws" + strings.TrimPrefix(o.srv.URL, "http") + "/svc"
+	c, _, err := websocket.DefaultDialer.Dial(url, nil)
+	if err != nil {
+		return nil, err
+	}
+	oc := &OpClient{Conn: c}
+	go func() {
+		for {
+			_, msg, err := c.ReadMessage()
+			if err != nil {
+				oc.mu.Lock()
+				oc.Closed = true
+				oc.mu.Unlock()
+				return
+			}
+			oc.mu.Lock()
+			oc.frames = append(oc.frames, string(msg))
+			oc.mu.Unlock()
+		}
+	}()
+	return oc, nil
+}
+
+func (c *OpClient) IsClosed() bool {
+	c.mu.Lock()
+	defer c.mu.Unlock()
+	return c.Closed
+}
